@@ -259,10 +259,13 @@ func runC17(r *Run, seed int64, c c17Case) {
 	}
 	h.settle()
 	final := p.state(h.victim)
-	cancelSent := false
+	cancelSent, peerKnows := false, false
 	for _, m := range h.sends {
-		if m.Type == ref.MsgCancel {
+		switch m.Type {
+		case ref.MsgCancel:
 			cancelSent = true
+		case ref.MsgSwapInRequest, ref.MsgSwapOutRequest, ref.MsgSwapOutAgreement:
+			peerKnows = true // the victim has handed its request (resp. its agreement) to the messenger
 		}
 	}
 	r.Eval()
@@ -276,7 +279,7 @@ func runC17(r *Run, seed int64, c c17Case) {
 	if final != string(swap.State_SwapCanceled) {
 		r.Violate("cancel-within-timeout", "C17|not-cancelled-after-timeout|"+tag,
 			fmt.Sprintf("state %s -> %s after 10 virtual minutes without an answer (chain %s, restart after crossing %d)", before, final, c.chain, c.restartAt), traceOf(p.w))
-	} else if !cancelSent && !isTerminal(before) {
+	} else if !cancelSent && (!isTerminal(before) || peerKnows) {
 		r.Violate("tells-the-peer", "C17|cancelled-without-telling-peer|"+tag,
 			fmt.Sprintf("swap cancelled (%s -> %s) but no cancel message was sent (chain %s, restart after crossing %d)", before, final, c.chain, c.restartAt), traceOf(p.w))
 	}
